@@ -210,7 +210,7 @@ package rcmgr
 //@ ensures s.done ==> result != nil
 //@ ensures result != nil && !s.done ==> wraps(result, network.ErrResourceLimitExceeded)
 //@ ensures wfScope(s)
-//@ modifies s.rc
+//@ modifies s.rc.memory, s.rc.nstreamsIn, s.rc.nstreamsOut, s.rc.nconnsIn, s.rc.nconnsOut, s.rc.nfd
 
 //@ func (s *resourceScope) ReleaseForChild
 //@ prop C03
@@ -218,7 +218,7 @@ package rcmgr
 //@ ensures !s.done ==> rcMinus(s, st)
 //@ ensures s.done ==> rcUnchanged(s)
 //@ ensures wfScope(s)
-//@ modifies s.rc
+//@ modifies s.rc.memory, s.rc.nstreamsIn, s.rc.nstreamsOut, s.rc.nconnsIn, s.rc.nconnsOut, s.rc.nfd
 
 // ---- edges: all-or-nothing over the linearised parent set (A-DISTINCT is the structural precondition)
 
@@ -317,3 +317,102 @@ package rcmgr
 //@ ensures result != nil && !s.done && (forall j int :: 0 <= j && j < len(s.edges) ==> !s.edges[j].done) ==> wraps(result, network.ErrResourceLimitExceeded)
 //@ ensures allNonneg()
 //@ modifies resources.nconnsIn, resources.nconnsOut, resources.nfd
+
+//@ func (s *resourceScope) releaseMemoryForEdges
+//@ prop C03
+//@ requires s.owner == nil && size >= 0 && allNonneg() && edgesOK(s)
+//@ loop 0 invariant 0 <= idx0 && idx0 <= len(s.edges)
+//@ loop 0 invariant forall j int :: 0 <= j && j < idx0 ==> (!s.edges[j].done ==> s.edges[j].rc.memory == max(0, old(s.edges[j].rc.memory) - size)) && (s.edges[j].done ==> s.edges[j].rc.memory == old(s.edges[j].rc.memory))
+//@ loop 0 invariant forall r *resources :: (r.memory == old(r.memory)) || (exists j int :: 0 <= j && j < idx0 && r == &s.edges[j].rc)
+//@ loop 0 invariant allNonneg()
+//@ ensures forall j int :: 0 <= j && j < len(s.edges) ==> (!s.edges[j].done ==> s.edges[j].rc.memory == max(0, old(s.edges[j].rc.memory) - size)) && (s.edges[j].done ==> s.edges[j].rc.memory == old(s.edges[j].rc.memory))
+//@ ensures forall r *resources :: (r.memory == old(r.memory)) || (exists j int :: 0 <= j && j < len(s.edges) && r == &s.edges[j].rc)
+//@ ensures allNonneg()
+//@ modifies resources.memory
+
+//@ func (s *resourceScope) ReleaseMemory
+//@ prop C03
+//@ requires s.owner == nil && size >= 0 && allNonneg() && edgesOK(s)
+//@ ensures !s.done ==> s.rc.memory == max(0, old(s.rc.memory) - size) &&
+//@         (forall j int :: 0 <= j && j < len(s.edges) ==> (!s.edges[j].done ==> s.edges[j].rc.memory == max(0, old(s.edges[j].rc.memory) - size)) && (s.edges[j].done ==> s.edges[j].rc.memory == old(s.edges[j].rc.memory)))
+//@ ensures !s.done ==> forall r *resources :: (r.memory == old(r.memory)) || r == &s.rc || (exists j int :: 0 <= j && j < len(s.edges) && r == &s.edges[j].rc)
+//@ ensures s.done ==> forall r *resources :: r.memory == old(r.memory)
+//@ ensures allNonneg()
+//@ modifies resources.memory
+
+//@ func (s *resourceScope) removeStreamForEdges
+//@ prop C03
+//@ requires s.owner == nil && true && allNonneg() && edgesOK(s)
+//@ loop 0 invariant 0 <= idx0 && idx0 <= len(s.edges)
+//@ loop 0 invariant forall j int :: 0 <= j && j < idx0 ==> (!s.edges[j].done ==> s.edges[j].rc.nstreamsIn == max(0, old(s.edges[j].rc.nstreamsIn) - ite(dir == network.DirInbound, 1, 0)) && s.edges[j].rc.nstreamsOut == max(0, old(s.edges[j].rc.nstreamsOut) - ite(dir == network.DirInbound, 0, 1))) && (s.edges[j].done ==> s.edges[j].rc.nstreamsIn == old(s.edges[j].rc.nstreamsIn) && s.edges[j].rc.nstreamsOut == old(s.edges[j].rc.nstreamsOut))
+//@ loop 0 invariant forall r *resources :: (r.nstreamsIn == old(r.nstreamsIn) && r.nstreamsOut == old(r.nstreamsOut)) || (exists j int :: 0 <= j && j < idx0 && r == &s.edges[j].rc)
+//@ loop 0 invariant allNonneg()
+//@ ensures forall j int :: 0 <= j && j < len(s.edges) ==> (!s.edges[j].done ==> s.edges[j].rc.nstreamsIn == max(0, old(s.edges[j].rc.nstreamsIn) - ite(dir == network.DirInbound, 1, 0)) && s.edges[j].rc.nstreamsOut == max(0, old(s.edges[j].rc.nstreamsOut) - ite(dir == network.DirInbound, 0, 1))) && (s.edges[j].done ==> s.edges[j].rc.nstreamsIn == old(s.edges[j].rc.nstreamsIn) && s.edges[j].rc.nstreamsOut == old(s.edges[j].rc.nstreamsOut))
+//@ ensures forall r *resources :: (r.nstreamsIn == old(r.nstreamsIn) && r.nstreamsOut == old(r.nstreamsOut)) || (exists j int :: 0 <= j && j < len(s.edges) && r == &s.edges[j].rc)
+//@ ensures allNonneg()
+//@ modifies resources.nstreamsIn, resources.nstreamsOut
+
+//@ func (s *resourceScope) RemoveStream
+//@ prop C03
+//@ requires s.owner == nil && true && allNonneg() && edgesOK(s)
+//@ ensures !s.done ==> s.rc.nstreamsIn == max(0, old(s.rc.nstreamsIn) - ite(dir == network.DirInbound, 1, 0)) && s.rc.nstreamsOut == max(0, old(s.rc.nstreamsOut) - ite(dir == network.DirInbound, 0, 1)) &&
+//@         (forall j int :: 0 <= j && j < len(s.edges) ==> (!s.edges[j].done ==> s.edges[j].rc.nstreamsIn == max(0, old(s.edges[j].rc.nstreamsIn) - ite(dir == network.DirInbound, 1, 0)) && s.edges[j].rc.nstreamsOut == max(0, old(s.edges[j].rc.nstreamsOut) - ite(dir == network.DirInbound, 0, 1))) && (s.edges[j].done ==> s.edges[j].rc.nstreamsIn == old(s.edges[j].rc.nstreamsIn) && s.edges[j].rc.nstreamsOut == old(s.edges[j].rc.nstreamsOut)))
+//@ ensures !s.done ==> forall r *resources :: (r.nstreamsIn == old(r.nstreamsIn) && r.nstreamsOut == old(r.nstreamsOut)) || r == &s.rc || (exists j int :: 0 <= j && j < len(s.edges) && r == &s.edges[j].rc)
+//@ ensures s.done ==> forall r *resources :: r.nstreamsIn == old(r.nstreamsIn) && r.nstreamsOut == old(r.nstreamsOut)
+//@ ensures allNonneg()
+//@ modifies resources.nstreamsIn, resources.nstreamsOut
+
+//@ func (s *resourceScope) removeConnForEdges
+//@ prop C03
+//@ requires s.owner == nil && true && allNonneg() && edgesOK(s)
+//@ loop 0 invariant 0 <= idx0 && idx0 <= len(s.edges)
+//@ loop 0 invariant forall j int :: 0 <= j && j < idx0 ==> (!s.edges[j].done ==> s.edges[j].rc.nconnsIn == max(0, old(s.edges[j].rc.nconnsIn) - ite(dir == network.DirInbound, 1, 0)) && s.edges[j].rc.nconnsOut == max(0, old(s.edges[j].rc.nconnsOut) - ite(dir == network.DirInbound, 0, 1)) && s.edges[j].rc.nfd == max(0, old(s.edges[j].rc.nfd) - ite(usefd, 1, 0))) && (s.edges[j].done ==> s.edges[j].rc.nconnsIn == old(s.edges[j].rc.nconnsIn) && s.edges[j].rc.nconnsOut == old(s.edges[j].rc.nconnsOut) && s.edges[j].rc.nfd == old(s.edges[j].rc.nfd))
+//@ loop 0 invariant forall r *resources :: (r.nconnsIn == old(r.nconnsIn) && r.nconnsOut == old(r.nconnsOut) && r.nfd == old(r.nfd)) || (exists j int :: 0 <= j && j < idx0 && r == &s.edges[j].rc)
+//@ loop 0 invariant allNonneg()
+//@ ensures forall j int :: 0 <= j && j < len(s.edges) ==> (!s.edges[j].done ==> s.edges[j].rc.nconnsIn == max(0, old(s.edges[j].rc.nconnsIn) - ite(dir == network.DirInbound, 1, 0)) && s.edges[j].rc.nconnsOut == max(0, old(s.edges[j].rc.nconnsOut) - ite(dir == network.DirInbound, 0, 1)) && s.edges[j].rc.nfd == max(0, old(s.edges[j].rc.nfd) - ite(usefd, 1, 0))) && (s.edges[j].done ==> s.edges[j].rc.nconnsIn == old(s.edges[j].rc.nconnsIn) && s.edges[j].rc.nconnsOut == old(s.edges[j].rc.nconnsOut) && s.edges[j].rc.nfd == old(s.edges[j].rc.nfd))
+//@ ensures forall r *resources :: (r.nconnsIn == old(r.nconnsIn) && r.nconnsOut == old(r.nconnsOut) && r.nfd == old(r.nfd)) || (exists j int :: 0 <= j && j < len(s.edges) && r == &s.edges[j].rc)
+//@ ensures allNonneg()
+//@ modifies resources.nconnsIn, resources.nconnsOut, resources.nfd
+
+//@ func (s *resourceScope) RemoveConn
+//@ prop C03
+//@ requires s.owner == nil && true && allNonneg() && edgesOK(s)
+//@ ensures !s.done ==> s.rc.nconnsIn == max(0, old(s.rc.nconnsIn) - ite(dir == network.DirInbound, 1, 0)) && s.rc.nconnsOut == max(0, old(s.rc.nconnsOut) - ite(dir == network.DirInbound, 0, 1)) && s.rc.nfd == max(0, old(s.rc.nfd) - ite(usefd, 1, 0)) &&
+//@         (forall j int :: 0 <= j && j < len(s.edges) ==> (!s.edges[j].done ==> s.edges[j].rc.nconnsIn == max(0, old(s.edges[j].rc.nconnsIn) - ite(dir == network.DirInbound, 1, 0)) && s.edges[j].rc.nconnsOut == max(0, old(s.edges[j].rc.nconnsOut) - ite(dir == network.DirInbound, 0, 1)) && s.edges[j].rc.nfd == max(0, old(s.edges[j].rc.nfd) - ite(usefd, 1, 0))) && (s.edges[j].done ==> s.edges[j].rc.nconnsIn == old(s.edges[j].rc.nconnsIn) && s.edges[j].rc.nconnsOut == old(s.edges[j].rc.nconnsOut) && s.edges[j].rc.nfd == old(s.edges[j].rc.nfd)))
+//@ ensures !s.done ==> forall r *resources :: (r.nconnsIn == old(r.nconnsIn) && r.nconnsOut == old(r.nconnsOut) && r.nfd == old(r.nfd)) || r == &s.rc || (exists j int :: 0 <= j && j < len(s.edges) && r == &s.edges[j].rc)
+//@ ensures s.done ==> forall r *resources :: r.nconnsIn == old(r.nconnsIn) && r.nconnsOut == old(r.nconnsOut) && r.nfd == old(r.nfd)
+//@ ensures allNonneg()
+//@ modifies resources.nconnsIn, resources.nconnsOut, resources.nfd
+
+//@ func (s *resourceScope) ReleaseResources
+//@ prop C03
+//@ requires s.owner == nil && statNonneg(st) && allNonneg() && edgesOK(s)
+//@ loop 0 invariant 0 <= idx0 && idx0 <= len(s.edges)
+//@ loop 0 invariant forall j int :: 0 <= j && j < idx0 ==> (!s.edges[j].done ==> s.edges[j].rc.memory == max(0, old(s.edges[j].rc.memory) - st.Memory) && s.edges[j].rc.nstreamsIn == max(0, old(s.edges[j].rc.nstreamsIn) - st.NumStreamsInbound) && s.edges[j].rc.nstreamsOut == max(0, old(s.edges[j].rc.nstreamsOut) - st.NumStreamsOutbound) && s.edges[j].rc.nconnsIn == max(0, old(s.edges[j].rc.nconnsIn) - st.NumConnsInbound) && s.edges[j].rc.nconnsOut == max(0, old(s.edges[j].rc.nconnsOut) - st.NumConnsOutbound) && s.edges[j].rc.nfd == max(0, old(s.edges[j].rc.nfd) - st.NumFD)) && (s.edges[j].done ==> s.edges[j].rc.memory == old(s.edges[j].rc.memory) && s.edges[j].rc.nstreamsIn == old(s.edges[j].rc.nstreamsIn) && s.edges[j].rc.nstreamsOut == old(s.edges[j].rc.nstreamsOut) && s.edges[j].rc.nconnsIn == old(s.edges[j].rc.nconnsIn) && s.edges[j].rc.nconnsOut == old(s.edges[j].rc.nconnsOut) && s.edges[j].rc.nfd == old(s.edges[j].rc.nfd))
+//@ loop 0 invariant forall r *resources :: (r.memory == old(r.memory) && r.nstreamsIn == old(r.nstreamsIn) && r.nstreamsOut == old(r.nstreamsOut) && r.nconnsIn == old(r.nconnsIn) && r.nconnsOut == old(r.nconnsOut) && r.nfd == old(r.nfd)) || r == &s.rc || (exists j int :: 0 <= j && j < idx0 && r == &s.edges[j].rc)
+//@ loop 0 invariant s.rc.memory == max(0, old(s.rc.memory) - st.Memory) && s.rc.nstreamsIn == max(0, old(s.rc.nstreamsIn) - st.NumStreamsInbound) && s.rc.nstreamsOut == max(0, old(s.rc.nstreamsOut) - st.NumStreamsOutbound) && s.rc.nconnsIn == max(0, old(s.rc.nconnsIn) - st.NumConnsInbound) && s.rc.nconnsOut == max(0, old(s.rc.nconnsOut) - st.NumConnsOutbound) && s.rc.nfd == max(0, old(s.rc.nfd) - st.NumFD)
+//@ loop 0 invariant allNonneg()
+//@ ensures !s.done ==> s.rc.memory == max(0, old(s.rc.memory) - st.Memory) && s.rc.nstreamsIn == max(0, old(s.rc.nstreamsIn) - st.NumStreamsInbound) && s.rc.nstreamsOut == max(0, old(s.rc.nstreamsOut) - st.NumStreamsOutbound) && s.rc.nconnsIn == max(0, old(s.rc.nconnsIn) - st.NumConnsInbound) && s.rc.nconnsOut == max(0, old(s.rc.nconnsOut) - st.NumConnsOutbound) && s.rc.nfd == max(0, old(s.rc.nfd) - st.NumFD)
+//@ ensures !s.done ==> forall j int :: 0 <= j && j < len(s.edges) ==> (!s.edges[j].done ==> s.edges[j].rc.memory == max(0, old(s.edges[j].rc.memory) - st.Memory) && s.edges[j].rc.nstreamsIn == max(0, old(s.edges[j].rc.nstreamsIn) - st.NumStreamsInbound) && s.edges[j].rc.nstreamsOut == max(0, old(s.edges[j].rc.nstreamsOut) - st.NumStreamsOutbound) && s.edges[j].rc.nconnsIn == max(0, old(s.edges[j].rc.nconnsIn) - st.NumConnsInbound) && s.edges[j].rc.nconnsOut == max(0, old(s.edges[j].rc.nconnsOut) - st.NumConnsOutbound) && s.edges[j].rc.nfd == max(0, old(s.edges[j].rc.nfd) - st.NumFD)) && (s.edges[j].done ==> s.edges[j].rc.memory == old(s.edges[j].rc.memory) && s.edges[j].rc.nstreamsIn == old(s.edges[j].rc.nstreamsIn) && s.edges[j].rc.nstreamsOut == old(s.edges[j].rc.nstreamsOut) && s.edges[j].rc.nconnsIn == old(s.edges[j].rc.nconnsIn) && s.edges[j].rc.nconnsOut == old(s.edges[j].rc.nconnsOut) && s.edges[j].rc.nfd == old(s.edges[j].rc.nfd))
+//@ ensures s.done ==> forall r *resources :: r.memory == old(r.memory) && r.nstreamsIn == old(r.nstreamsIn) && r.nstreamsOut == old(r.nstreamsOut) && r.nconnsIn == old(r.nconnsIn) && r.nconnsOut == old(r.nconnsOut) && r.nfd == old(r.nfd)
+//@ ensures allNonneg()
+//@ modifies resources.memory, resources.nstreamsIn, resources.nstreamsOut, resources.nconnsIn, resources.nconnsOut, resources.nfd
+
+//@ func (s *resourceScope) doneUnlocked
+//@ prop C03
+//@ requires s.owner == nil && allNonneg() && edgesOK(s)
+//@ loop 0 invariant 0 <= idx0 && idx0 <= len(s.edges) && !s.done
+//@ loop 0 invariant stat.Memory == old(s.rc.memory) && stat.NumStreamsInbound == old(s.rc.nstreamsIn) && stat.NumStreamsOutbound == old(s.rc.nstreamsOut) &&
+//@         stat.NumConnsInbound == old(s.rc.nconnsIn) && stat.NumConnsOutbound == old(s.rc.nconnsOut) && stat.NumFD == old(s.rc.nfd)
+//@ loop 0 invariant forall j int :: 0 <= j && j < idx0 ==> s.edges[j].refCnt == old(s.edges[j].refCnt) - 1 &&
+//@         (!s.edges[j].done ==> s.edges[j].rc.memory == max(0, old(s.edges[j].rc.memory) - old(s.rc.memory)) && s.edges[j].rc.nstreamsIn == max(0, old(s.edges[j].rc.nstreamsIn) - old(s.rc.nstreamsIn)) && s.edges[j].rc.nstreamsOut == max(0, old(s.edges[j].rc.nstreamsOut) - old(s.rc.nstreamsOut)) && s.edges[j].rc.nconnsIn == max(0, old(s.edges[j].rc.nconnsIn) - old(s.rc.nconnsIn)) && s.edges[j].rc.nconnsOut == max(0, old(s.edges[j].rc.nconnsOut) - old(s.rc.nconnsOut)) && s.edges[j].rc.nfd == max(0, old(s.edges[j].rc.nfd) - old(s.rc.nfd))) && (s.edges[j].done ==> s.edges[j].rc.memory == old(s.edges[j].rc.memory) && s.edges[j].rc.nstreamsIn == old(s.edges[j].rc.nstreamsIn) && s.edges[j].rc.nstreamsOut == old(s.edges[j].rc.nstreamsOut) && s.edges[j].rc.nconnsIn == old(s.edges[j].rc.nconnsIn) && s.edges[j].rc.nconnsOut == old(s.edges[j].rc.nconnsOut) && s.edges[j].rc.nfd == old(s.edges[j].rc.nfd))
+//@ loop 0 invariant forall j int :: idx0 <= j && j < len(s.edges) ==> s.edges[j].refCnt == old(s.edges[j].refCnt)
+//@ loop 0 invariant forall r *resources :: (r.memory == old(r.memory) && r.nstreamsIn == old(r.nstreamsIn) && r.nstreamsOut == old(r.nstreamsOut) && r.nconnsIn == old(r.nconnsIn) && r.nconnsOut == old(r.nconnsOut) && r.nfd == old(r.nfd)) || (exists j int :: 0 <= j && j < idx0 && r == &s.edges[j].rc)
+//@ loop 0 invariant allNonneg()
+//@ ensures old(s.done) ==> s.done && (forall r *resources :: r.memory == old(r.memory) && r.nstreamsIn == old(r.nstreamsIn) && r.nstreamsOut == old(r.nstreamsOut) && r.nconnsIn == old(r.nconnsIn) && r.nconnsOut == old(r.nconnsOut) && r.nfd == old(r.nfd)) && (forall x *resourceScope :: x.refCnt == old(x.refCnt))
+//@ ensures !old(s.done) ==> s.done && s.rc.memory == 0 && s.rc.nstreamsIn == 0 && s.rc.nstreamsOut == 0 && s.rc.nconnsIn == 0 && s.rc.nconnsOut == 0 && s.rc.nfd == 0
+//@ ensures !old(s.done) ==> forall j int :: 0 <= j && j < len(s.edges) ==> s.edges[j].refCnt == old(s.edges[j].refCnt) - 1 &&
+//@         (!s.edges[j].done ==> s.edges[j].rc.memory == max(0, old(s.edges[j].rc.memory) - old(s.rc.memory)) && s.edges[j].rc.nstreamsIn == max(0, old(s.edges[j].rc.nstreamsIn) - old(s.rc.nstreamsIn)) && s.edges[j].rc.nstreamsOut == max(0, old(s.edges[j].rc.nstreamsOut) - old(s.rc.nstreamsOut)) && s.edges[j].rc.nconnsIn == max(0, old(s.edges[j].rc.nconnsIn) - old(s.rc.nconnsIn)) && s.edges[j].rc.nconnsOut == max(0, old(s.edges[j].rc.nconnsOut) - old(s.rc.nconnsOut)) && s.edges[j].rc.nfd == max(0, old(s.edges[j].rc.nfd) - old(s.rc.nfd))) && (s.edges[j].done ==> s.edges[j].rc.memory == old(s.edges[j].rc.memory) && s.edges[j].rc.nstreamsIn == old(s.edges[j].rc.nstreamsIn) && s.edges[j].rc.nstreamsOut == old(s.edges[j].rc.nstreamsOut) && s.edges[j].rc.nconnsIn == old(s.edges[j].rc.nconnsIn) && s.edges[j].rc.nconnsOut == old(s.edges[j].rc.nconnsOut) && s.edges[j].rc.nfd == old(s.edges[j].rc.nfd))
+//@ ensures forall r *resources :: (r.memory == old(r.memory) && r.nstreamsIn == old(r.nstreamsIn) && r.nstreamsOut == old(r.nstreamsOut) && r.nconnsIn == old(r.nconnsIn) && r.nconnsOut == old(r.nconnsOut) && r.nfd == old(r.nfd)) || r == &s.rc || (exists j int :: 0 <= j && j < len(s.edges) && r == &s.edges[j].rc)
+//@ ensures allNonneg()
+//@ modifies resources.memory, resources.nstreamsIn, resources.nstreamsOut, resources.nconnsIn, resources.nconnsOut, resources.nfd, resourceScope.refCnt, s.done
